@@ -3,6 +3,8 @@
 use crate::util::*;
 use serde_json::{json, Value};
 
+pub mod digests;
+pub mod distinfos;
 pub mod names;
 pub mod patterns;
 pub mod summaries;
@@ -38,6 +40,13 @@ impl Gen {
                 let v: Value = serde_json::from_str(&line).ok()?;
                 Some((v["op"].as_str().unwrap_or("").to_string(), v["in"].clone()))
             }
+            "distcanon" => Some(("distparse".into(), json!({"bytes": bytes_json(&distinfos::canonical(rng))}))),
+            "distmessy" => Some(("distparse".into(), json!({"bytes": bytes_json(&distinfos::messy(rng))}))),
+            "distbuild" => Some(("distbuild".into(), distinfos::build(rng))),
+            "verify" => Some(("verify".into(), distinfos::verify(rng))),
+            "digest" => Some(("digest".into(), digests::case(rng))),
+            "algname" => Some(("algname".into(), json!({"s": codes(&digests::algname(rng))}))),
+            "hashvec" => Some(("hashvec".into(), json!({"data": bytes_json(&digests::vector(rng, i))}))),
             "sumhist" => {
                 let vals = summaries::entry_values(rng);
                 Some(("sumhist".into(), json!({"steps": summaries::history(rng, &vals)})))
